@@ -31,8 +31,8 @@ def compositions(tier, seed):
 
 
 def eval_comp(case):
+    import bluebonnet.fluids as fluid_mod  # noqa: PLC0415  (public names: build_pvt_gas, pseudopressure)
     from bluebonnet.fluids import build_pvt_gas, gas  # noqa: PLC0415
-    from bluebonnet.fluids import fluid as fluid_mod  # noqa: PLC0415
 
     g, T, cont, dry = case["gravity"], case["T"], case["cont"], case["dry"]
     pmax = int(case["pmax"]) if case.get("int_pmax") else case["pmax"]  # the default 14_000 is an int
@@ -45,6 +45,8 @@ def eval_comp(case):
     build_pvt_gas(dict(vals, **{"Gas Specific Gravity": g + 0.05}), dry, maximum_pressure=pmax)
     build_pvt_gas(dict(vals, **{"Reservoir Temperature (deg F)": T + 25.0}), dry, maximum_pressure=pmax)
     build_pvt_gas(dict(vals, N2=cont[0] + 0.02), dry, maximum_pressure=pmax)
+    build_pvt_gas(dict(vals, H2S=cont[1] + 0.02), dry, maximum_pressure=pmax)
+    build_pvt_gas(dict(vals, CO2=cont[2] + 0.02), dry, maximum_pressure=pmax)
     build_pvt_gas(dict(vals), dry, maximum_pressure=pmax - 500)
     tab = build_pvt_gas(dict(vals), dry, maximum_pressure=pmax)
     nh = gas.make_nonhydrocarbon_properties(*cont)
@@ -54,6 +56,20 @@ def eval_comp(case):
     m_sa = np.asarray(fluid_mod.pseudopressure(p, tab["viscosity"].to_numpy(), tab["z-factor"].to_numpy()))
     viol = []
     evals = 0
+    # the stand-alone transform given the table's own columns (pandas Series), and a row-filtered frame whose index
+    # does not start at 0: values are relative to the first row handed in
+    try:
+        m_ser = np.asarray(fluid_mod.pseudopressure(tab["pressure"], tab["viscosity"], tab["z-factor"]), dtype=float)
+        k0 = len(tab) // 3
+        sub = tab[tab["pressure"] >= float(p[k0])]
+        m_sub = np.asarray(fluid_mod.pseudopressure(sub["pressure"], sub["viscosity"], sub["z-factor"]), dtype=float)
+        if not (np.allclose(m_ser, m_sa, rtol=1e-13, atol=0)
+                and np.allclose(m_sub, m_sa[k0:] - m_sa[k0], rtol=1e-10, atol=1e-10 * abs(m_sa[-1]))):
+            viol.append(V("standalone/series-input", "fluids.pseudopressure on the table's own columns (pandas Series), or on a "
+                          "row-filtered frame, differs from the same transform on plain arrays", case=case))
+    except Exception as e:  # noqa: BLE001
+        viol.append(V("standalone/series-input", f"fluids.pseudopressure on pandas Series raises {type(e).__name__}: {e}",
+                      case=case))
     if m_tab[0] != 0 or m_sa[0] != 0:
         viol.append(V("zero-at-reference/table", f"table / stand-alone pseudopressure at the first pressure: "
                       f"{m_tab[0]!r} / {m_sa[0]!r}", case=case))
@@ -74,6 +90,16 @@ def eval_comp(case):
         viol.append(V("zero-at-reference/quadrature", f"pseudopressure_Hussainy at its reference = {H(14.7)!r}",
                       case=case))
     nodes = [q for q in case["nodes"] if q < pmax]
+    # history for the quadrature route: neighbours that share (T, p, gravity, reference) but not the pseudocritical
+    # point, then neighbours in T and in gravity - a result remembered under too coarse a key would now be served
+    for q in nodes:
+        gas.pseudopressure_Hussainy(T, q, tpc + 7.0, ppc - 11.0, g, pressure_standard=14.7)
+        gas.pseudopressure_Hussainy(T + 25.0, q, tpc, ppc, g, pressure_standard=14.7)
+        gas.pseudopressure_Hussainy(T, q, tpc, ppc, g + 0.05, pressure_standard=14.7)
+    q0 = nodes[len(nodes) // 2]
+    if gas.pseudopressure_Hussainy(T, q0, tpc, ppc, g) != H(q0):
+        viol.append(V("quadrature/default-reference", "pseudopressure_Hussainy with its default reference pressure differs "
+                      "from the call with pressure_standard=14.7", case=case))
     f_int = 2 * p / (tab["viscosity"].to_numpy() * tab["z-factor"].to_numpy())
     f2 = np.abs(np.gradient(np.gradient(f_int, p), p))
     f2 = np.maximum(f2, np.roll(f2, 1))
